@@ -84,6 +84,13 @@ def replay(ctx, exe):
     return 0
 
 
+F12_WHAT = ("with the guard enabled on Prague a block without any delegation differs from stock revm: the guard's "
+            "load_account_delegated(target) in front of a CREATE executed by init code loads the account being created "
+            "with code (info.code None -> Some(empty)); when that outer create fails and the address is then funded by "
+            "SELFDESTRUCT without a code load, it is committed with code Some(empty) and the bundle gains "
+            "contracts[KECCAK_EMPTY] (guard off and stock revm: no such entry)")
+
+
 def run(ctx):
     if ctx.replay:
         ok, out, bins = core.cargo_build(BINS)
@@ -101,6 +108,19 @@ def run(ctx):
     d = run_driver(ctx, bins["guard"], model, ctx.seed, n_unit, n_prog, "main")
     first = core.diff_lines(d["impl"], d["model"])
     corr_ok = first is None and not d["direct"]
+
+    # finding F12: directed reproduction (`guard f12`)
+    rc12, out12 = core.sh([bins["guard"], "f12"], timeout=300)
+    f12_lines = [l[:400] for l in out12.splitlines() if l.startswith("F12")]
+    for l in f12_lines:
+        core.log(l)
+    if rc12 not in (0, 10):
+        raise RuntimeError("guard f12 failed (rc=%s): %s" % (rc12, out12[-2000:]))
+    if rc12 == 10:
+        if any(k.get("id") == "F12" for k in ctx.known_findings()):
+            ctx.known_finding(F12_WHAT)
+        else:
+            ctx.violation(F12_WHAT, dict(witness=f12_lines, seed=ctx.seed, replay_cmd="target/release/guard f12"), True)
 
     if not proof["ok"] or not corr_ok:
         broken = list(proof["problems"])
